@@ -99,7 +99,7 @@ func c12Specs() []*bfsSpec {
 	for _, size := range []int{20000, 40000} {
 		silent := peerCfg{Fast: true, Ext: true, NoExt0: true, Metadata: 8, Pex: 9, DontHave: 7}
 		cfg := worldCfg{Geom: "gtail", Magnet: true, AutoDrain: true, InfoSize: size, Peers: []peerCfg{silent, silent, silent}}
-		specs = append(specs, &bfsSpec{Name: fmt.Sprintf("c12-votes%d", size), Cfg: cfg,
+		specs = append(specs, &bfsSpec{BothMapOrders: true, Name: fmt.Sprintf("c12-votes%d", size), Cfg: cfg,
 			Alphabet: []string{"vote:0:100000", "vote:1:true", "vote:2:true", "mdata:0:0:forged:100000:chunk", "mdata:0:1:forged:100000:chunk", "mdata:0:2:forged:100000:chunk",
 				"mdata:0:0:true:100000:chunk", "mtick", "manswer:1"},
 			Depth: 5, DepthT: 6, Live: metadataLiveness})
